@@ -769,10 +769,8 @@ func execRun(spec *C11Run, rl *raceLog) (res runResult) {
 		verifsim.TaskExit(int32(n))
 		<-end
 	}()
-	done := make(chan struct{})
-	go watchdog(done, spec.Seed)
+	startWatchdog()
 	verifsim.Run()
-	close(done)
 	close(end)
 	wg.Wait()
 	if n, site := verifsim.UnownedEvents(); n > 0 {
@@ -963,41 +961,58 @@ func mustLoad(t NamedText) *ast.Schema {
 // the replay command): it receives the verdict below and does not return.
 var onHang func(v C11Violation)
 
-// watchdog watches the simulation's progress. No yield point reached for 20 s
-// of real time is machinery trouble (a non-terminating computation is C02's
-// subject): exit 2. One case is a verdict instead: an earlier operation
-// returned inside a Lock()/Unlock() bracket (verifsim.LockLeaks) and now a task
-// sits in a sync primitive's acquire path called from library code. Tasks run
-// one at a time and a task is never parked inside such a bracket, so nobody
-// else holds that lock: the library leaked it, and the call never returns -
-// "every concurrent call returns exactly what the same call returns when run
-// alone" is violated by not returning at all.
-func watchdog(done chan struct{}, seed uint64) {
-	last := verifsim.Progress()
-	stuck := 0
-	for {
-		select {
-		case <-done:
-			return
-		case <-time.After(2 * time.Second):
-		}
-		p := verifsim.Progress()
-		if p == last {
-			stuck++
-			if stuck >= 3 && verifsim.LockLeaks() > 0 && onHang != nil {
-				if fr, stack := blockedInLibrary(); fr != "" {
+var watchdogOnce sync.Once
+
+// startWatchdog starts the process-wide watchdog (once). It watches the
+// heartbeat of library code (every yield point, simulated or not - the solo
+// reference executions and the snapshots run outside the scheduler).
+//
+// Library code that sits in a sync primitive's acquire path while the
+// heartbeat stands still for 6 s is blocked for good: the harness runs one
+// goroutine of library code at a time and never parks a task inside a
+// statement-level Lock()/Unlock() bracket. If an earlier operation of this
+// process returned inside such a bracket (verifsim.LockLeaks), nobody else can
+// hold that lock (the same holds when the blocked task itself has such a bracket
+// open: it leaked the lock earlier in the same operation, or tries to take it
+// twice): the library leaked it, and this call never returns - "every
+// concurrent call returns exactly what the same call returns when run alone" is
+// violated by not returning at all: a verdict. Without an observed leak the
+// same situation is machinery trouble (exit 2) after 20 s, and so is a
+// simulation that reaches no yield point for 20 s.
+func startWatchdog() {
+	watchdogOnce.Do(func() {
+		go func() {
+			last := verifsim.Heartbeat()
+			stuck := 0
+			for {
+				time.Sleep(2 * time.Second)
+				hb := verifsim.Heartbeat()
+				if hb != last {
+					stuck, last = 0, hb
+					continue
+				}
+				stuck++
+				if stuck < 3 {
+					continue
+				}
+				fr, stack := blockedInLibrary()
+				// (the blocked task may be the very one that leaked the lock, later in
+				// the same operation: then its own bracket is still open)
+				if fr != "" && (verifsim.LockLeaks() > 0 || verifsim.OpenBrackets() > 0) && onHang != nil {
 					onHang(C11Violation{Class: "hang:lock-not-released@" + fr, Oracle: "liveness",
-						Detail: fmt.Sprintf("task %d has been blocked for %d s acquiring a sync primitive from library code, after %d operation(s) of this process returned without releasing a lock they had taken; every other task is parked by the simulator, so nobody else can hold it\n%s", verifsim.Cur(), 2*stuck, verifsim.LockLeaks(), stack)})
+						Detail: fmt.Sprintf("a call has been blocked for %d s acquiring a sync primitive from library code; %d operation(s) of this process returned without releasing a lock they had taken, and the blocked task itself has %d Lock()/Unlock() bracket(s) open; the harness runs one goroutine of library code at a time and never parks a task inside such a bracket, so nobody else can hold the lock\n%s", 2*stuck, verifsim.LockLeaks(), verifsim.OpenBrackets(), stack)})
+				}
+				if stuck >= 10 {
+					if fr != "" {
+						fatal(2, "watchdog: library code has been blocked in a sync primitive for 20 s (%s) and no leaked lock was observed: not a verdict\n%s", fr, stack)
+					}
+					if verifsim.Active() {
+						fatal(2, "watchdog: no yield reached for 20s (cur task %d)", verifsim.Cur())
+					}
 				}
 			}
-			if stuck >= 10 {
-				fatal(2, "watchdog: no yield reached for 20s in run seed %d (cur task %d)", seed, verifsim.Cur())
-			}
-		} else {
-			stuck = 0
-			last = p
-		}
-	}
+		}()
+	})
 }
 
 // blockedInLibrary looks for a task goroutine that is waiting in a sync
@@ -1012,7 +1027,9 @@ func blockedInLibrary() (string, string) {
 			continue
 		}
 		hdr := lines[0]
-		if !(strings.Contains(hdr, "[sync.") || strings.Contains(hdr, "[semacquire")) || !strings.Contains(g, "main.execOp") {
+		// (only calls the harness itself is making: a goroutine the library keeps
+		// for its own purposes may wait on a condition variable for ever)
+		if !(strings.Contains(hdr, "[sync.") || strings.Contains(hdr, "[semacquire")) || !strings.Contains(g, "main.exec") {
 			continue
 		}
 		for _, l := range lines[1:] {
